@@ -85,7 +85,7 @@ vproof! {
 //@ besteffort: yes
 //@ prop: C06
 //@ tier: thorough
-//@ cap: 1800
+//@ cap: 1500
 //@ funcs: utils::ziggurat (symmetric); StandardNormal::sample::<f64>
 //@ bounds: every stream; 2-word returns; additionally |x| <= X[i] (needs the solver to bound a 53x53-bit product)
 //@ assumes: f64::exp by contract
@@ -348,7 +348,7 @@ c07_normal!(c07_normal_f64, f64, false);
 //@ besteffort: yes
 //@ prop: C07
 //@ tier: thorough
-//@ cap: 3600
+//@ cap: 1500
 //@ funcs: Normal::<f64>::sample; from_zscore
 //@ bounds: as c07_normal_f64, plus from_zscore(z) == mean + std_dev * z
 //@ assumes: utils::ziggurat replaced by a free logged draw
